@@ -262,8 +262,72 @@ func (c *Ctx) oracleNSI(cursor, n, t uint64) {
 	}
 }
 
+// pureHistory: the arithmetic helpers are pure functions - their results must not depend on what was
+// computed before, and a slice they returned must not change when they are called again. Random order,
+// repeated arguments, long mountain ranges (n up to 64 k with small widths), results held across calls.
+func (c *Ctx) pureHistory() {
+	type held struct {
+		n, w  uint64
+		sl    []uint64
+		first string
+	}
+	var hs []held
+	str := func(l []uint64) string { return fmt.Sprint(len(l), ":", l) }
+	check := func(h held) {
+		c.oracle()
+		if str(h.sl) != h.first {
+			c.violate("C15", "", fmt.Sprintf("the slice MerkleMountainRangeSizes(%d, %d) returned earlier was changed by later calls", h.n, h.w), "", []string{fmt.Sprintf("arith mmr %d %d", h.n, h.w)})
+		}
+		again, err := inclusion.MerkleMountainRangeSizes(h.n, h.w)
+		if err != nil || str(again) != h.first {
+			c.violate("C15", "", fmt.Sprintf("MerkleMountainRangeSizes(%d, %d) returns a different result than it did earlier in the same process", h.n, h.w), "", []string{fmt.Sprintf("arith mmr %d %d", h.n, h.w)})
+		}
+	}
+	for i := 0; i < c.n(3000, 40000); i++ {
+		w := uint64(1) << uint(c.rng.Intn(8))
+		n := uint64(c.rng.Range(1, 70)) * w
+		switch c.rng.Intn(4) {
+		case 0:
+			n = uint64(c.rng.Pick([]int{16, 17, 31, 32, 33, 64, 65})) * w
+		case 1:
+			n += uint64(c.rng.Intn(int(w)))
+		case 2:
+			n = uint64(c.rng.Range(1, 1<<16))
+		}
+		if len(hs) > 0 && c.rng.Chance(1, 3) { // repeat an earlier argument pair
+			h := hs[c.rng.Intn(len(hs))]
+			n, w = h.n, h.w
+		}
+		l, err := inclusion.MerkleMountainRangeSizes(n, w)
+		if err != nil {
+			continue
+		}
+		hs = append(hs, held{n, w, l, str(l)})
+		if len(hs) > 64 {
+			check(hs[0])
+			hs = hs[1:]
+		}
+		if c.rng.Chance(1, 4) {
+			check(hs[c.rng.Intn(len(hs))])
+		}
+		// scalar helpers twice with something else in between
+		a := uint64(c.rng.Range(1, 1<<20))
+		t := uint64(c.rng.Pick([]int{1, 2, 63, 64, 65}))
+		w1 := inclusion.SubTreeWidth(int(a), int(t))
+		_ = inclusion.SubTreeWidth(int(n), int(t))
+		_ = inclusion.BlobMinSquareSize(int(n))
+		if w2 := inclusion.SubTreeWidth(int(a), int(t)); w1 != w2 {
+			c.violate("C15", "", fmt.Sprintf("SubTreeWidth(%d, %d) returned %d and then %d", a, t, w1, w2), "", nil)
+		}
+	}
+	for _, h := range hs {
+		check(h)
+	}
+}
+
 func streamArith(c *Ctx) {
 	c.newCase()
+	c.pureHistory()
 	blk := uint64(4096)
 	maxN := uint64(1) << 12
 	maxLen := uint64(1) << 16
